@@ -75,6 +75,8 @@ def make_schema(fam, tg, rng):
     defaults_started = False
     for i in range(n):
         t = tg.type(rng.randint(0, 2))
+        if rng.random() < 0.03:
+            t = tg.nullable_fixed_tuple()          # nullable position > fixed-shape tuple > nullable members
         if tg.allow_field_engine and tg.allow_named and rng.random() < 0.03:
             t = tg.nt_engine_dataclass()          # NamedTuple engine lattice (Config option x field option x position)
         f = {"n": f"f{i}", "t": t}
